@@ -199,7 +199,13 @@ def expected(inp):
         if not (MIN_INSTANT <= w < MAX_INSTANT):
             return None
         return fields_of_wall_us(w), 0
+    if k == "dtvia":
+        f = list(inp[2])
+        return (f[:3] + [0, 0, 0, 0] if inp[1] == "short" else f), 0
     raise ValueError(k)
+
+
+DTVIA = ["kw_none", "pos_none", "kw_all", "short", "combine", "fromisoformat", "strptime"]
 
 
 def domain(inp):
@@ -336,6 +342,18 @@ def gen_cases(rng, tier):
                 c["disp"] = r.choice(["Europe/Amsterdam", "America/New_York", "Australia/Lord_Howe", "Asia/Kolkata", "NONE",
                                       "UTC", "Not/AZone"])
         cases.append(c)
+    # ---- the field type reached through its other doors (components with tzinfo=None, fewer components, the inherited
+    # alternative constructors): a naive wall clock is UTC there too, and the value travels like any other
+    rv = rng.fork("dtvia")
+    for how in DTVIA:
+        for _ in range(2 if tier == "quick" else 40):
+            f = _gen_fields(rv)
+            if how == "strptime" and f[0] < 1000:
+                continue                      # glibc pads %Y differently below 1000
+            c = {"kind": "rt", "input": ["dtvia", how, f]}
+            if rv.chance(30):
+                c["via"] = rv.choice(["replace", "assign"])
+            cases.append(c)
     # ---- JSON written by another producer: a timestamp WITHOUT offset in a record line means UTC, whatever the local zone
     # of the reading process is
     for text in ("2021-03-04T12:30:15", "2021-03-04T12:30:15.000001", "1999-12-31T23:59:59", "2021-11-07T01:30:00", "0001-01-02T00:00:00"):
@@ -403,6 +421,28 @@ def build_input(inp):
         return int(inp[1])
     if k == "epochf":
         return struct.unpack(">d", bytes.fromhex(inp[1]))[0]
+    if k == "dtvia":
+        # an instance of the datetime FIELD TYPE obtained through another door than `datetime(value)`: components with an
+        # explicit tzinfo=None, fewer components, or the inherited alternative constructors - all naive wall clocks = UTC
+        from flow.record import fieldtypes
+        FT = fieldtypes.datetime
+        y, mo, d, h, mi, sec, us = inp[2]
+        how = inp[1]
+        if how == "kw_none":
+            return FT(y, mo, d, h, mi, sec, us, tzinfo=None)
+        if how == "pos_none":
+            return FT(y, mo, d, h, mi, sec, us, None)
+        if how == "kw_all":
+            return FT(year=y, month=mo, day=d, hour=h, minute=mi, second=sec, microsecond=us)
+        if how == "short":
+            return FT(y, mo, d)
+        if how == "combine":
+            return FT.combine(_dtm.date(y, mo, d), _dtm.time(h, mi, sec, us))
+        if how == "fromisoformat":
+            return FT.fromisoformat(_dtm.datetime(y, mo, d, h, mi, sec, us).isoformat())
+        if how == "strptime":
+            return FT.strptime("%04d-%02d-%02d %02d:%02d:%02d.%06d" % (y, mo, d, h, mi, sec, us), "%Y-%m-%d %H:%M:%S.%f")
+        raise ValueError(how)
     raise ValueError(k)
 
 
